@@ -1,10 +1,11 @@
 import Driver.Proto
 import Driver.Geom
+import Driver.EMap
 /-
   gmdriver — reads request lines on stdin, writes one response line per request on stdout.
 -/
 
-def handlers : List Handler := [DGeom.handle]
+def handlers : List Handler := [DGeom.handle, DEMap.handle]
 
 def dispatch (op : String) : Option (Rd String) :=
   handlers.findSome? (fun h => h op)
